@@ -201,13 +201,15 @@ Verdict(f, opts, rl, st, out, meta, rt, l1) ==
       d02 == IF st = "ok" /\ relOnly /\ rt.st = "ok" THEN C02Diffs(S, rt.tree, excl)
              ELSE IF relOnly /\ (st # "ok" \/ rt.st # "ok") THEN {<<"round-trip-failed", st \o "/" \o rt.st>>} ELSE {}
       d19 == C19Bad(st)
-  IN [ c03 |-> d03 = {}, c05 |-> d05 = {}, c20 |-> d20 = {}, c02 |-> d02 = {}, c19 |-> d19 = {},
+      \* C12 (Pack half): a writer failing at any byte offset makes Pack return an error
+      d12 == { "writer fault at offset " \o ToString(meta.wfsilent[i]) \o " not reported" : i \in DOMAIN meta.wfsilent }
+  IN [ c03 |-> d03 = {}, c05 |-> d05 = {}, c20 |-> d20 = {}, c02 |-> d02 = {}, c19 |-> d19 = {}, c12 |-> d12 = {}, w12 |-> d12, kf12 |-> "",
        w03 |-> { d[1] \o ":" \o d[2] : d \in d03 }, w05 |-> { d[1] \o ":" \o d[2] : d \in d05 },
        w20 |-> d20, w02 |-> { d[1] \o ":" \o d[2] : d \in d02 }, w19 |-> d19,
        kf03 |-> "", kf05 |-> "", kf20 |-> "", kf02 |-> "", kf19 |-> KF19Class(f, opts, d19),
        relonly |-> relOnly ]
 
-MetaOf(out) == [files |-> EntryNames(out), size |-> 0, bodybytes |-> 0, hdrsizes |-> 0]
+MetaOf(out) == [files |-> EntryNames(out), size |-> 0, bodybytes |-> 0, hdrsizes |-> 0, wfsilent |-> <<>>]
 
 DoPack ==
   /\ ~call
